@@ -32,10 +32,17 @@ def seeded_table():
         j = json.load(open(m))
         sid = os.path.basename(os.path.dirname(m))
         cr = j.get('check_result', {})
+        if 'no longer applies' in (cr.get('how') or ''):
+            res = 'patch no longer applies to /repo HEAD (the code it changes was repaired since)'
+        elif 'patched exit 0' in (j.get('demo_at_recheck') or '') and not cr.get('detected'):
+            res = 'no longer a defect on /repo HEAD (its own demo passes with the patch): equivalent mutant'
+        elif cr.get('detected'):
+            res = '**detected** ({})'.format(cr.get('how', ''))
+        else:
+            res = '**missed**'
         rows.append('| {} | {} | {} | {} | {} |'.format(
-            sid, j.get('property', ''), (j.get('summary', '') or '').replace('|', '\\|')[:260],
-            (j.get('needs', '') or '').replace('|', '\\|')[:260],
-            ('**detected** ({})'.format(cr.get('how', '')) if cr.get('detected') else '**missed**')))
+            sid, j.get('property', ''), (j.get('summary', '') or '').replace('|', '\\|')[:200],
+            (j.get('needs', '') or '').replace('|', '\\|')[:200], res))
     head = ['| seed | property | change | needs, to manifest | check result (quick tier) |', '|---|---|---|---|---|']
     return '\n'.join(head + rows)
 
